@@ -411,7 +411,36 @@ def build_case(family, p, boundary, dom, d, levelvec, ivs, variant="dyadic"):
     return case
 
 
+def run_modified_trapezoidal(ctx, case):
+    """TrapezoidalGrid(boundary=False, modified_basis=True): the boundary points are dropped and the end weights extrapolate, so on EVERY sub-box (levels >= 1)
+    the weights still sum to the box volume and integrate the coordinate functions exactly (nominal degree 1)."""
+    from sparseSpACE import Grid as G
+    a, b, s, e, lv = case["a"], case["b"], case["start"], case["end"], case["levelvec"]
+    d = len(lv)
+    site = SITE_W["trapezoidal"]
+    st = {}
+    with ctx.guard("B.total", SITE_SET, "trapezoidal-modified-raises"):
+        with quiet():
+            g = G.TrapezoidalGrid(np.array(a[:d]), np.array(b[:d]), boundary=False, modified_basis=True)
+            g.setCurrentArea(np.array(s), np.array(e), list(lv))
+            pts, w = g.get_points_and_weights()
+            st["pw"] = (np.array(pts, dtype=float).reshape(-1, d), np.array(w, dtype=float).ravel())
+    if "pw" not in st:
+        return
+    pts, w = st["pw"]
+    vol = float(np.prod([ee - ss for ss, ee in zip(s, e)]))
+    ctx.check("B.weights.sum", abs(w.sum() - vol) <= 1e-10 * vol, site, "trapezoidal-modified-weightsum", "sum %r, volume %r, box %s..%s levels %s" % (float(w.sum()), vol, s, e, lv))
+    for k in range(d):
+        exact = vol * (s[k] + e[k]) / 2.0
+        scale = vol * max(abs(s[k]), abs(e[k]), 1e-300)
+        ctx.check("B.exact.weights", abs(float((w * pts[:, k]).sum()) - exact) <= 1e-10 * scale, site, "trapezoidal-modified-linear",
+                  "sum w*x_%d = %r, exact %r, box %s..%s levels %s" % (k, float((w * pts[:, k]).sum()), exact, s, e, lv))
+
+
 def do_case(ctx, case):
+    if case.get("variant") == "modified-basis":
+        ctx.case(case, nontrivial=True)
+        return run_modified_trapezoidal(ctx, case)
     # trivial = the grid is empty by construction (boundary off, level 0, box spans the whole domain in some dimension)
     empty = case["boundary"] is False and any(l == 0 and s == a and e == b for l, s, e, a, b in
                                               zip(case["levelvec"], case["start"], case["end"], case["a"], case["b"]))
@@ -444,6 +473,14 @@ def run(ctx):
             for l in range(5):
                 do_case(ctx, build_case("trapezoidal", None, False, dom, 1, [l], [iv], variant="end-ulp"))
     do_case(ctx, build_case("trapezoidal", None, False, 1, 2, [2, 1], [(1, 0), (1, 1)], variant="end-ulp"))
+    # local trapezoidal grid with the modified (extrapolating) basis, boundary off: levels >= 1, every interval of the dyadic family, d = 1 and 2
+    for dom in range(len(DOMAINS)):
+        for iv in INTERVALS:
+            for l in range(1, 5):
+                do_case(ctx, build_case("trapezoidal", None, False, dom, 1, [l], [iv], variant="modified-basis"))
+    for n, lv in enumerate(itertools.product(range(1, 4), repeat=2)):
+        ivs = (INTERVALS[(3 * n) % len(INTERVALS)], INTERVALS[(5 * n + 2) % len(INTERVALS)])
+        do_case(ctx, build_case("trapezoidal", None, False, n % len(DOMAINS), 2, list(lv), list(ivs), variant="modified-basis"))
 
     # ---- d = 2: every level vector; boxes rotate (quick) / all boxes on one domain + rotation on the others (thorough)
     lv2 = list(itertools.product(range(5), repeat=2))
@@ -486,4 +523,6 @@ def run(ctx):
 
 
 def replay(ctx, case):
+    if case.get("variant") == "modified-basis":
+        return run_modified_trapezoidal(ctx, case)
     run_case(ctx, case)
